@@ -359,6 +359,18 @@ def _loop_body_check(f, entry_call, callees_allowed):
                     if c.func.get("res_impl_derived"):
                         continue  # derived Clone/PartialEq/... on a local type: pure
                     if sp not in callees_allowed:
+                        # a read-only accessor (`&self` in, a reference / copy of a part out; it calls nothing but indexing / deref and
+                        # writes nothing through its arguments) has no effect an iteration order could be observed through
+                        P_ = f.prog
+                        tg = [P_.fns.get(k2) for k2 in P_.callee_keys(f, c)]
+                        pure = bool(tg) and all(
+                            g_ is not None and not g_.loops() and
+                            all(re.search(r"Index<.*>>::index$|Deref>::deref$|::as_slice$|::as_str$|::len$|::is_empty$|Clone>::clone$", short(x.name)) for x in g_.calls) and
+                            not any(st_["k"] == "assign" and "*" in st_["pl"]["p"] for _, st_ in g_.stmts()) and
+                            not any(g_.local_ty(a_).startswith("&mut") for a_ in range(1, g_.arg_count + 1))
+                            for g_ in tg)
+                        if pure:
+                            continue
                         bad.append((c.loc(), "unlisted local callee %s" % sp))
         # an error exit out of the loop (`?` on a call that can really fail) is order-sensitive: with two failing elements the error that
         # is reported is the one the hash order visits first.  A `?` on a local callee that constructs no Err and propagates none
